@@ -82,7 +82,7 @@ def _svd_stub_call(R, jac=True):
 def kernels():
     from polliwog.transform import rodrigues_vector_to_rotation_matrix as r2m
 
-    imports = [("PW.model", "M_rodrigues"), ("PW.proofs", "P_rodrigues")]
+    imports = [("PW.model", "M_rodrigues"), ("PW.model", "M_rodrigues_spec"), ("PW.proofs", "P_rodrigues")]
     ks = []
     R3 = "(V3 r0 r1 r2)"
     # forward matrix and Jacobian, generic branch
@@ -370,13 +370,24 @@ def gen_cases(rng, n, tier):
             R = _half_turn(k)
             cases.append({"kind": kind, "fn": rng.choice(["cv2", "m2r"]), "shape": [3, 3],
                           "data": [x for row in R for x in row], "jac": jac})
-        elif u < 0.84:
+        elif u < 0.835:
             R = _overshoot_halfturn(rng)
             if R is None:
                 continue
             cases.append({"kind": "inv_halfturn_tiny_component", "fn": rng.choice(["cv2", "m2r"]), "shape": [3, 3],
                           "data": [x for row in R for x in row], "jac": jac})
-        elif u < 0.86:
+        elif u < 0.855:
+            # next to the branch switch s = 1e-5, on both sides, near 0 and near pi: judged by the 2.5e-5 clause / the amplified one
+            f = rng.choice([0.9, 0.99, 0.999, 0.9999, 0.99999, 1.00001, 1.0001, 1.001, 1.01, 1.1])
+            ang = math.asin(SMALL * f)
+            if rng.random() < 0.5:
+                ang = math.pi - ang
+            R = _reference_r2m(_scaled(_direction(rng), ang))
+            if not _threshold_safe(R):
+                continue
+            cases.append({"kind": "inv_threshold", "fn": rng.choice(["cv2", "m2r"]), "shape": [3, 3],
+                          "data": R.reshape(-1).tolist(), "jac": jac, "angle": ang})
+        elif u < 0.87:
             cases.append({"kind": "inv_identity", "fn": rng.choice(["cv2", "m2r"]), "shape": [3, 3],
                           "data": [1.0, 0.0, 0.0, 0.0, 1.0, 0.0, 0.0, 0.0, 1.0], "jac": jac})
         else:
